@@ -432,6 +432,18 @@ func check(id, tier string) int {
 	if len(realViol) > 0 {
 		return 1
 	}
+	if p.RequirePrefix != "" && inconclusive == 0 && hooks {
+		n := 0
+		for k, v := range counters {
+			if strings.HasPrefix(k, p.RequirePrefix) && v > 0 {
+				n++
+			}
+		}
+		if n < p.RequireDistinct {
+			fmt.Printf("MACHINERY-FAILURE property=%s: only %d of %d table rows (%s*) were exercised\n", id, n, p.RequireDistinct, p.RequirePrefix)
+			return 2
+		}
+	}
 	if inconclusive == 0 && (evaluations == 0 || len(nontrivial) < p.MinNonTrivial) {
 		fmt.Printf("MACHINERY-FAILURE property=%s: monitors observed too little (evaluations=%d, distinct_nontrivial=%d, floor %d)\n", id, evaluations, len(nontrivial), p.MinNonTrivial)
 		return 2
